@@ -154,7 +154,7 @@ def run(ctx, canary=False):
     fresh_cache = {}
     iters = 25
     old_cbs = []          # [list the callback appends to, its length when its own call returned, description]
-    for e in emits[: (len(emits) if thorough else len(front) + 60)]:
+    for e in emits[: (len(front) + 4000 if thorough else len(front) + 60)]:
         warm = e["warm"]
         calls = e["calls"]
         info = {"warm_start": warm, "calls": calls, "iters": iters, "zeros": {"a,b": [[0, 1]]}}
